@@ -36,6 +36,8 @@ pub struct Baseline {
 #[derive(Serialize, Deserialize, Clone, Debug, PartialEq, Eq)]
 pub enum OpResult {
     Built,
+    /// the knowledge base has grown; it is now version `version` (index into RunRecord::versions)
+    Asserted { version: usize },
     /// next_solution: Some(formatted answer) / None
     Next(Option<String>),
     Solve(String),
@@ -84,7 +86,15 @@ pub struct TraceEvent {
 
 #[derive(Serialize, Deserialize, Clone, Debug, Default)]
 pub struct RunRecord {
+    /// baseline of every query on the initial knowledge base (= baseline_v[0])
     pub baseline: Vec<Baseline>,
+    /// knowledge-base versions met in the history: the list of Assert-ed extra clauses, in order
+    #[serde(default)]
+    pub versions: Vec<Vec<usize>>,
+    /// baseline_v[v][q]: pristine behaviour of query q on version v of the knowledge base, computed
+    /// on a fresh OS thread (clean thread-locals) with the globals reset, on a knowledge base of its own
+    #[serde(default)]
+    pub baseline_v: Vec<Vec<Baseline>>,
     pub ops: Vec<OpRecord>,
     /// post-check: every query built and run once more after the drain, without resetting globals
     pub post: Option<Vec<Baseline>>,
@@ -106,6 +116,9 @@ pub struct RunRecord {
     /// after the run, start_query() did not clear the stop flag
     #[serde(default)]
     pub flag_stuck_after_start_query: bool,
+    /// version of the knowledge base at the end of the history
+    #[serde(default)]
+    pub final_version: usize,
     /// the stop flag was already set, and start_query() did not clear it, before this run began:
     /// an earlier run in this process has poisoned it (the run is not judged)
     #[serde(default)]
@@ -286,18 +299,23 @@ impl Sim {
 
 thread_local! {
     static SIM: RefCell<Sim> = RefCell::new(Sim::new());
-    static CAPTURE: RefCell<Option<Capture>> = RefCell::new(None);
 }
 
+// one capture per process (fd 1 is process-wide); runs are strictly sequential
+static CAPTURE: Mutex<Option<Capture>> = Mutex::new(None);
+
 fn install_capture() {
-    CAPTURE.with(|c| *c.borrow_mut() = Some(Capture::install()));
+    let mut c = CAPTURE.lock().unwrap_or_else(|p| p.into_inner());
+    if c.is_none() {
+        *c = Some(Capture::install());
+    }
 }
 
 fn take_output() -> String {
-    let raw = CAPTURE.with(|c| match c.borrow_mut().as_mut() {
+    let raw = match CAPTURE.lock().unwrap_or_else(|p| p.into_inner()).as_mut() {
         Some(cap) => String::from_utf8_lossy(&cap.take()).into_owned(),
         None => String::new(),
-    });
+    };
     mask_elapsed(&raw)
 }
 
@@ -371,7 +389,7 @@ fn probe(site: u32, arg: u64) {
         let s = s.borrow();
         (s.mode, s.stack_base)
     });
-    if site == vp::QUERY_STOPPED && mode != Mode::Off && base != 0 && usize::from(shuttle::current::me()) == 0 {
+    if site == vp::QUERY_STOPPED && mode != Mode::Off && base != 0 && (mode == Mode::Baseline || usize::from(shuttle::current::me()) == 0) {
         let here = &mode as *const Mode as usize;
         if base.abs_diff(here) > DEPTH_LIMIT {
             std::panic::panic_any(AbortDepth);
@@ -699,7 +717,86 @@ fn drain() -> bool {
     simtime::sleepers() == 0
 }
 
-fn run_body(scn: &Scenario, opts: ExecOpts) -> RunRecord {
+/// The knowledge-base versions a history goes through: version 0 is the initial program, every
+/// Assert op appends one extra clause. Returns the versions in order of first appearance.
+pub fn kb_versions(scn: &Scenario) -> Vec<Vec<usize>> {
+    let mut versions: Vec<Vec<usize>> = vec![vec![]];
+    let mut cur: Vec<usize> = vec![];
+    for op in &scn.history {
+        if let Op::Assert { c } = op {
+            if *c < scn.extra_clauses.len() {
+                cur.push(*c);
+                if !versions.contains(&cur) {
+                    versions.push(cur.clone());
+                }
+            }
+        }
+    }
+    versions
+}
+
+fn clauses_of_version(scn: &Scenario, version: &[usize]) -> Vec<Clause> {
+    let mut v = scn.clauses.clone();
+    for c in version {
+        v.push(scn.extra_clauses[*c].clone());
+    }
+    v
+}
+
+/// Pristine-state baselines, computed on a fresh OS thread: clean thread-locals, globals reset
+/// with start_query() before every query, a knowledge base of its own per version, no timer, the
+/// probes in counting mode. Nothing the simulated history does later can have touched this.
+pub fn pristine_baselines(scn: &Scenario, opts: ExecOpts) -> Result<Vec<Vec<Baseline>>, String> {
+    let scn2 = scn.clone();
+    let handle = std::thread::Builder::new()
+        .name("qsim-baseline".to_string())
+        .stack_size(24 << 20)
+        .spawn(move || -> Result<Vec<Vec<Baseline>>, String> {
+            let anchor = 0u8;
+            SIM.with(|s| {
+                let mut s = s.borrow_mut();
+                *s = Sim::new();
+                s.mode = Mode::Baseline;
+                s.baseline_cap = opts.baseline_step_cap;
+                s.stack_base = &anchor as *const u8 as usize;
+                s.run_started = Some(std::time::Instant::now());
+            });
+            vp::set_probe(Some(probe));
+            let _ = take_output();
+            start_query();
+            if vp::peek_flag() {
+                vp::set_probe(None);
+                return Err("process poisoned: the stop flag is set and start_query() does not clear it".to_string());
+            }
+            let mut out = vec![];
+            for version in kb_versions(&scn2) {
+                let kb = build_kb(&clauses_of_version(&scn2, &version));
+                let mut row = vec![];
+                for q in &scn2.queries {
+                    match run_plain(q, &kb, true, 400) {
+                        Ok(b) => row.push(b),
+                        Err(why) => {
+                            vp::set_probe(None);
+                            start_query();
+                            return Err(why);
+                        }
+                    }
+                }
+                out.push(row);
+            }
+            vp::set_probe(None);
+            start_query();
+            SIM.with(|s| s.borrow_mut().mode = Mode::Off);
+            Ok(out)
+        })
+        .map_err(|e| format!("cannot spawn the baseline thread: {}", e))?;
+    match handle.join() {
+        Ok(r) => r,
+        Err(p) => Err(format!("baseline thread panicked: {}", panic_message(&p))),
+    }
+}
+
+fn run_body(scn: &Scenario, opts: ExecOpts, baselines: &Result<Vec<Vec<Baseline>>, String>) -> RunRecord {
     let mut rec = RunRecord::default();
     simtime::reset();
     SIM.with(|s| {
@@ -714,35 +811,33 @@ fn run_body(scn: &Scenario, opts: ExecOpts) -> RunRecord {
         s.stack_base = &rec as *const RunRecord as usize;
         s.run_started = Some(std::time::Instant::now());
     });
-    vp::set_probe(Some(probe));
     let _ = take_output();
-    start_query();
-    if vp::peek_flag() {
-        rec.poisoned_at_start = true;
-        rec.discard = Some("process poisoned: the stop flag is set and start_query() does not clear it".to_string());
-        vp::set_probe(None);
-        return rec;
-    }
-
-    let kb = build_kb(&scn.clauses);
-
-    // ---- pristine-state baseline of every query ----
-    for q in &scn.queries {
-        match run_plain(q, &kb, true, 400) {
-            Ok(b) => rec.baseline.push(b),
-            Err(why) => {
-                rec.discard = Some(why);
-                vp::set_probe(None);
-                start_query();
-                return rec;
-            }
+    rec.versions = kb_versions(scn);
+    match baselines {
+        Ok(b) => {
+            rec.baseline_v = b.clone();
+            rec.baseline = b.first().cloned().unwrap_or_default();
+        }
+        Err(why) => {
+            rec.poisoned_at_start = why.starts_with("process poisoned");
+            rec.discard = Some(why.clone());
+            return rec;
         }
     }
+    vp::set_probe(Some(probe));
     start_query();
+
+    // The knowledge base lives behind a raw pointer: query instances borrow it, and an Assert op
+    // changes it in place (as add_rules(&mut kb, ..) does in a program) after every instance has
+    // been dropped — which the borrow checker cannot see through the handle map.
+    let kb_ptr: *mut KnowledgeBase = Box::into_raw(Box::new(build_kb(&scn.clauses)));
+    let mut version: usize = 0;
+    let mut asserted: Vec<usize> = vec![];
 
     // ---- the history, live ----
     SIM.with(|s| s.borrow_mut().mode = Mode::Live);
     let mut handles: BTreeMap<usize, Handle> = BTreeMap::new();
+    let mut handle_version: BTreeMap<usize, usize> = BTreeMap::new();
     // Only the most recently built query may be stepped: make_query resets the variable counter,
     // so stepping an older live search next to a newer one is an unsupported use that can recurse
     // without bound inside unify (and would take the worker process down with it).
@@ -766,21 +861,46 @@ fn run_body(scn: &Scenario, opts: ExecOpts) -> RunRecord {
         });
         let calls_before = SIM.with(|s| s.borrow().call_seq);
         let result: OpResult = match op {
-            Op::New { h, q } => {
+            Op::New { h, q, gap_ms } => {
                 if *q >= scn.queries.len() {
                     OpResult::Skipped
                 } else {
                     let spec = &scn.queries[*q];
-                    let kbr = &kb;
+                    // SAFETY: the box is alive until the end of run_body and is only changed (Assert)
+                    // while no query instance exists
+                    let kbr: &KnowledgeBase = unsafe { &*kb_ptr };
+                    let gap = *gap_ms;
                     match catch_unwind(AssertUnwindSafe(|| {
                         let goal = spec.to_suiron();
+                        if gap > 0 {
+                            idle(gap);
+                        }
                         let sn = make_base_node(Rc::new(goal.clone()), kbr);
                         Handle { goal, sn }
                     })) {
                         Ok(hd) => {
                             handles.insert(*h, hd);
+                            handle_version.insert(*h, version);
                             newest = Some(*h);
                             OpResult::Built
+                        }
+                        Err(p) => OpResult::Panic(panic_message(&p)),
+                    }
+                }
+            }
+            Op::Assert { c } => {
+                if *c >= scn.extra_clauses.len() {
+                    OpResult::Skipped
+                } else {
+                    handles.clear();
+                    newest = None;
+                    let rule = scn.extra_clauses[*c].to_suiron();
+                    // SAFETY: no query instance is alive (handles cleared just above)
+                    match catch_unwind(AssertUnwindSafe(|| unsafe { add_rules(&mut *kb_ptr, vec![rule]) })) {
+                        Ok(()) => {
+                            asserted.push(*c);
+                            version = rec.versions.iter().position(|v| *v == asserted).unwrap_or(0);
+                            OpResult::Asserted { version }
                         }
                         Err(p) => OpResult::Panic(panic_message(&p)),
                     }
@@ -865,13 +985,15 @@ fn run_body(scn: &Scenario, opts: ExecOpts) -> RunRecord {
     SIM.with(|s| s.borrow_mut().event(0, "drain"));
     rec.drained = drain();
     drop(handles);
+    rec.final_version = version;
 
     // ---- post-check: the same queries once more, globals as the history left them ----
     SIM.with(|s| s.borrow_mut().mode = Mode::Baseline);
     if scn.post_check && rec.drained && !aborted {
         let mut post = vec![];
         for q in &scn.queries {
-            match run_plain(q, &kb, false, 400) {
+            // SAFETY: every query instance has been dropped
+            match run_plain(q, unsafe { &*kb_ptr }, false, 400) {
                 Ok(b) => post.push(b),
                 Err(why) => {
                     // reported through an empty, incomplete record
@@ -881,6 +1003,8 @@ fn run_body(scn: &Scenario, opts: ExecOpts) -> RunRecord {
         }
         rec.post = Some(post);
     }
+    // SAFETY: allocated above with Box::into_raw; no reference to it is left
+    unsafe { drop(Box::from_raw(kb_ptr)) };
     vp::set_probe(None);
     start_query();
     // start_query() is the documented way to begin a query with the stop flag clear. If the flag
@@ -945,6 +1069,7 @@ pub fn quiet_panics() {
 struct Job {
     scn: Arc<Scenario>,
     opts: ExecOpts,
+    baselines: Arc<Result<Vec<Vec<Baseline>>, String>>,
 }
 
 struct EngineShared {
@@ -1023,12 +1148,12 @@ fn engine_main(jobs: std::sync::mpsc::Receiver<Job>, results: std::sync::mpsc::S
         let run = catch_unwind(AssertUnwindSafe(|| {
             let runner = shuttle::Runner::new(EngineScheduler { shared: sh_sched }, config);
             runner.run(move || {
-                let (scn, opts) = {
+                let (scn, opts, baselines) = {
                     let sh = sh_body.lock().unwrap();
                     let job = sh.current.as_ref().expect("current job");
-                    (Arc::clone(&job.scn), job.opts)
+                    (Arc::clone(&job.scn), job.opts, Arc::clone(&job.baselines))
                 };
-                let rec = run_body(&scn, opts);
+                let rec = run_body(&scn, opts, &baselines);
                 sh_body.lock().unwrap().record = Some(rec);
             });
         }));
@@ -1078,6 +1203,8 @@ static ENGINE: std::sync::OnceLock<Mutex<EngineHandle>> = std::sync::OnceLock::n
 /// Runs one scenario under shuttle with the seeded scheduler.
 pub fn execute(scn: &Scenario, opts: ExecOpts) -> RunOutcome {
     HEARTBEAT.fetch_add(1, std::sync::atomic::Ordering::Relaxed);
+    // before the first baseline prints anything
+    install_capture();
     let engine = ENGINE.get_or_init(|| {
         let (jtx, jrx) = std::sync::mpsc::channel::<Job>();
         let (rtx, rrx) = std::sync::mpsc::channel::<RunOutcome>();
@@ -1089,7 +1216,10 @@ pub fn execute(scn: &Scenario, opts: ExecOpts) -> RunOutcome {
         Mutex::new(EngineHandle { jobs: jtx, results: rrx })
     });
     let e = engine.lock().unwrap();
-    if e.jobs.send(Job { scn: Arc::new(scn.clone()), opts }).is_err() {
+    // the reference first, on a thread of its own (runs are strictly sequential: the engine thread is
+    // idle while this one works)
+    let baselines = Arc::new(pristine_baselines(scn, opts));
+    if e.jobs.send(Job { scn: Arc::new(scn.clone()), opts, baselines }).is_err() {
         return RunOutcome::HarnessError("engine thread is gone".to_string());
     }
     match e.results.recv() {
